@@ -65,6 +65,8 @@ let parse_uop (t : string list) : uop =
   | ["tcp_write"; s; h] -> UTcpWrite (zi s, pairs_bufs tl, zi h)
   | ["tcp_read"; s; h] -> UTcpRead (zi s, List.map zi tl, zi h)
   | ["tcp_readsome"; s] -> UTcpReadSome (zi s, List.map zi tl)
+  | ["tcp_write_all"; s; seed; total; chunk; h] -> UTcpWriteAll (zi s, zi seed, zi total, zi chunk, zi h)
+  | ["tcp_read_all"; s; bs; h] -> UTcpReadAll (zi s, zi bs, zi h)
   | ["tcp_wait"; s; h] -> UTcpWaitRead (zi s, zi h)
   | ["tcp_avail"; s] -> UTcpAvailable (zi s)
   | ["tcp_lep"; s] -> UTcpLocalEp (zi s)
